@@ -60,7 +60,8 @@ def trees(draw):
     return dict(top=draw(st.sampled_from(['pure', 'nestable'])), kinds=kinds,
                 parents=parents, edges=edges,
                 hkeys=[draw(st.integers(0, 15)) for _ in range(n)],
-                verbose=draw(st.integers(0, 4)) == 0)
+                verbose=draw(st.integers(0, 4)) == 0,
+                outsiders_ran=draw(st.integers(0, 3)) == 0)
 
 
 def strategy(tier):
@@ -95,6 +96,23 @@ def evaluate(case):
         objs = build(case)
     kinds, parents = case['kinds'], case['parents']
     n = len(objs)
+    if case.get('outsiders_ran'):
+        # jobs outside the tree may well have run already (an earlier stage of a pipeline):
+        # whether a requirement dangles is a matter of membership, not of its state
+        import asyncio
+        from asynciojobs import PureScheduler
+        ran = [objs[i] for i in range(1, n)
+               if parents[i] is None and kinds[i] == 'job' and not objs[i].required]
+        if ran:
+            loop = asyncio.new_event_loop()
+            asyncio.set_event_loop(loop)
+            try:
+                with quiet():
+                    PureScheduler(*ran).run()
+            finally:
+                loop.close()
+                asyncio.set_event_loop(None)
+            res.label('outsiders-already-ran')
     # reachable schedulers of the tree = those whose chain of parents reaches the top
     def in_tree(i):
         while i != 0:
